@@ -30,12 +30,16 @@ Inductive case :=
 | UCase (carrier svc name : string) (transport : option script) (decor : list script) (* innermost first *)
         (ctx0 req : Z) (obs : outcome) (obs_log : list event)
 | SCase (carrier svc name : string) (cs ss : bool) (transport : option script) (decor : list script)
-        (stream0 : Z) (obs : outcome) (obs_log : list event).
+        (stream0 : Z) (obs : outcome) (obs_log : list event)
+      (* a stream handler that fails: hret > 0 a status code, -3 / -4 a bare context.Canceled / DeadlineExceeded value *)
+| SRet (carrier svc name : string) (cs ss : bool) (transport : option script) (decor : list script)
+       (stream0 hret : Z) (obs : outcome) (obs_log : list event).
 
 Definition logging_method (name : string) : uhandler :=
   fun ctx req l => (Ok (req * 2 + ctx), l ++ [Handled name ctx req]).
-Definition logging_stream (name : string) : shandler :=
-  fun stream l => (Ok 0, l ++ [Handled name stream 0]).
+Definition logging_stream_ret (name : string) (hret : Z) : shandler :=
+  fun stream l => ((if hret =? 0 then Ok 0 else Err hret), l ++ [Handled name stream 0]).
+Definition logging_stream (name : string) : shandler := logging_stream_ret name 0.
 
 Definition info_eqb (a b : info) : bool :=
   String.eqb (i_method a) (i_method b) && Bool.eqb (i_cs a) (i_cs b) && Bool.eqb (i_ss a) (i_ss b).
@@ -62,17 +66,21 @@ Definition run_unary svc name transport decor ctx0 req : outcome * log :=
   | [] => (Err (-1), [])
   end.
 
-Definition run_stream svc name cs ss transport decor stream0 : outcome * log :=
+Definition run_stream_ret svc name cs ss transport decor stream0 hret : outcome * log :=
   let d0 := {| sv_name := svc; sv_methods := [];
-               sv_streams := [{| s_name := name; s_cs := cs; s_ss := ss; s_handler := logging_stream name |}]; sv_meta := 0 |} in
+               sv_streams := [{| s_name := name; s_cs := cs; s_ss := ss; s_handler := logging_stream_ret name hret |}]; sv_meta := 0 |} in
   let d := fold_left (fun d s => intercepted d None (Some (script_sint s))) decor d0 in
   match sv_streams d with
   | x :: _ => dispatch_stream svc x (option_map script_sint transport) stream0 []
   | [] => (Err (-1), [])
   end.
 
+Definition run_stream svc name cs ss transport decor stream0 := run_stream_ret svc name cs ss transport decor stream0 0.
+
 Definition check_case (k : case) : bool :=
   match k with
+  | SRet _ svc name cs ss t dec s hret obs ol =>
+      let '(o, l) := run_stream_ret svc name cs ss t dec s hret in outcome_eqb o obs && list_eqb event_eqb l ol
   | UCase _ svc name t dec c r obs ol =>
       let '(o, l) := run_unary svc name t dec c r in outcome_eqb o obs && list_eqb event_eqb l ol
   | SCase _ svc name cs ss t dec s obs ol =>
@@ -98,5 +106,11 @@ Definition oracle_case (k : case) : bool :=
       let want := {| i_method := full_method svc name; i_cs := cs; i_ss := ss |} in
       let chain := opt_list t ++ rev dec in
       let '(o, l) := spec_schain (map script_sint chain) want (logging_stream name) s0 [] in
+      info_ok want ol && outcome_eqb o obs && list_eqb event_eqb l ol
+  | SRet _ svc name cs ss t dec s0 hret obs ol =>
+      (* the handler's error reaches every interceptor, and the dispatcher, as the value it is *)
+      let want := {| i_method := full_method svc name; i_cs := cs; i_ss := ss |} in
+      let chain := opt_list t ++ rev dec in
+      let '(o, l) := spec_schain (map script_sint chain) want (logging_stream_ret name hret) s0 [] in
       info_ok want ol && outcome_eqb o obs && list_eqb event_eqb l ol
   end.
